@@ -101,7 +101,8 @@ def st_option_point():
         if draw(st.integers(0, 2)) > 0:
             a = draw(st.sampled_from(sorted(g.ACCELERATION_ALGORITHMS)))
             o["accel"] = [a, {k: draw(st.integers(lo, hi)) for k, (lo, hi) in g.ACCELERATION_ALGORITHMS[a].items()}]
-        o["stiffness"] = draw(st.sampled_from(g.STIFFNESS_TYPES))
+        # acceleration algorithms only act when the iterations are many: bias towards the elastic stiffness then
+        o["stiffness"] = draw(st.sampled_from(g.STIFFNESS_TYPES + (["Elastic", "Elastic", "SecantOperator"] if "accel" in o else [])))
         o["prediction"] = draw(st.sampled_from(g.PREDICTION_POLICIES))
         o["rounding"] = draw(st.sampled_from(g.ROUNDING_MODES))
         sub = draw(st.sampled_from(["none", "faults", "dynamic", "itermax"]))
